@@ -219,7 +219,7 @@ def main(tier, seed):
     q = tier == "quick"
     rng = random.Random(seed)
     cases = []
-    reps = 3 if q else 120
+    reps = 3 if q else 400
     for cause in CAUSES:
         for point in POINTS:
             for role in ("client", "server"):
